@@ -92,7 +92,9 @@ def eval_case(case):
 
 TIMESTAMPS = [1.0, 0.1, 1e-7, 1e22, -5.5, 1417653453.026288, 123456789.12345679, 5e-324, 1.7976931348623157e308]
 DESC_ALPHA = ["a", " ", "\"", "'", "#"]
-LONG_DESCS = ["Fedora 20", "Red Hat Enterprise Linux 7.0 \"Maipo\" Server", "Näme 日本 21"]
+LONG_DESCS = ["Fedora 20", "Red Hat Enterprise Linux 7.0 \"Maipo\" Server", "Näme 日本 21",
+              # one line for the file reader (only \n ends a line), but str.splitlines() would break these
+              "Fedora 20\x0cDVD", "Fedora\u2028 21", "a\x1cb\x85c\x0bd"]
 DISC_NUMBERS = [["ALL"], [1], [1, 2, 3], [10, 2], [2, 10], [9, 10, 11], [3, 1, 2]]
 
 
